@@ -43,7 +43,7 @@ func c01Menu() []vEntry {
 func c01Requests() []vReq {
 	var rs []vReq
 	for _, host := range []string{"a.com", "a.com:8080", "b.com", "[::1]:80", "A.com"} {
-		for _, path := range []string{"/a", "/a/b", "/ab", "/c"} {
+		for _, path := range []string{"/a", "/a/b", "/ab", "/c", "/a/a/b"} {
 			for _, m := range []string{"GET", "POST"} {
 				for _, x := range []string{"", "1", "2"} {
 					for _, y := range []string{"", "1"} {
